@@ -151,6 +151,7 @@ fn main() {
                     "clear_held_ref" => live::clear_held_ref((rounds / 30).max(6), &arg(&args, "--prop").unwrap_or_else(|| "all".to_string())),
                     "async_clear_ack" => live2::async_clear_ack((rounds / 60).max(4), &arg(&args, "--prop").unwrap_or_else(|| "all".to_string())),
                     "sweep_refresh_race" => live2::sweep_refresh_race((rounds / 100).max(2), &arg(&args, "--prop").unwrap_or_else(|| "all".to_string())),
+                    "async_sweep_refresh_race" => live2::async_sweep_refresh_race((rounds / 100).max(2), &arg(&args, "--prop").unwrap_or_else(|| "all".to_string())),
                     "double_clear" => live2::double_clear((rounds / 25).max(8)),
                     "validator_race" => live2::validator_race((rounds / 15).max(12)),
                     "metrics_contention" => live2::metrics_contention((rounds / 100).max(3)),
